@@ -21,13 +21,20 @@ pub fn empty_add_oracle(v: &mut Visit) -> Vec<(String, String)> {
     let before_ids = v.live.ids_sorted();
     let ids: Vec<u64> = v.alpha.ids.iter().copied().chain(std::iter::once(v.alpha.outsider)).collect();
     for id in ids {
-        for form in 0..3 {
+        for form in 0..5 {
             let r = crate::common::catch(|| match form {
                 0 => v.live.add(id, Vec::new()),
                 1 => v.live.add_slice(id, &[]),
-                _ => v.live.add_string(id, String::new()),
+                2 => v.live.add_string(id, String::new()),
+                // empty, but owning an allocation: a cleared scratch buffer, a reserved but never filled vector
+                3 => {
+                    let mut scratch = vec![7u8; 64];
+                    scratch.clear();
+                    v.live.add(id, scratch)
+                }
+                _ => v.live.add_string(id, String::with_capacity(32)),
             });
-            let fname = ["Vec", "slice", "String"][form];
+            let fname = ["Vec", "slice", "String", "cleared Vec with capacity", "String with capacity"][form];
             match r {
                 Ok(Err(_)) => {}
                 Ok(Ok(())) => bad.push(("empty-add-accepted".to_string(), format!("add_tile({id}, empty {fname}) returned Ok"))),
@@ -80,7 +87,7 @@ fn zero_len_lists() -> Vec<(Vec<SEntry>, usize)> {
 pub fn run(tier: &str) -> i32 {
     let rep = Report::new("C19", tier, "model_checking");
     let thorough = rep.thorough();
-    rep.rule("(a) add_tile(id, empty) as Vec/&[u8]/String for every alphabet id in every state of the C04 history search (BFS to fix-point): Err, hook snapshot and all observations unchanged; (b) zero-length entry at every index of directories of size 1..4 and at {0,500,999} of 1000: parser (bytes from the spec encoder) and serialiser refuse, x4 compressions x sync/async, and archives carrying one in root or leaf do not open; (c) metadata of every non-object JSON kind refused on open - including arrays holding objects and strings whose text is a JSON object or another JSON document -, objects accepted; (d) internal compression Unknown refused by writer, by open and by the six codec helpers; non-trivial = all cases (each is a rejection or its accepting control)");
+    rep.rule("(a) add_tile(id, empty) as Vec/&[u8]/String/cleared Vec with capacity/String with capacity for every alphabet id in every state of the C04 history search (BFS to fix-point): Err, hook snapshot and all observations unchanged; (b) zero-length entry at every index of directories of size 1..4 and at {0,500,999} of 1000: parser (bytes from the spec encoder) and serialiser refuse, x4 compressions x sync/async, and archives carrying one in root or leaf do not open; (c) metadata of every non-object JSON kind refused on open - including arrays holding objects and strings whose text is a JSON object or another JSON document -, objects accepted; (d) internal compression Unknown refused by writer, by open and by the six codec helpers; non-trivial = all cases (each is a rejection or its accepting control)");
 
     // ---- (a) history clause
     let alpha = Alphabet::new(thorough);
@@ -91,7 +98,7 @@ pub fn run(tier: &str) -> i32 {
     rep.set("transitions", json!(stats.transitions));
     rep.set("traces_validated_against_impl", json!(stats.transitions * 2));
     rep.set("fixpoint_reached", json!(complete));
-    rep.count("refused_adds_checked", stats.transitions * 2 * 3 * (alpha.ids.len() as u64 + 1));
+    rep.count("refused_adds_checked", stats.transitions * 2 * 5 * (alpha.ids.len() as u64 + 1));
     if !complete {
         rep.not_exhaustive("state cap reached before the fix-point");
     }
